@@ -249,7 +249,7 @@ enum Host {
 impl Host {
     fn items(&self) -> &'static [&'static str] {
         match self {
-            Host::Component => &["field", "kv", "md", "roy", "owner", "role"],
+            Host::Component => &["field", "kv", "kvs", "md", "roy", "owner", "role"],
             Host::Resource => &["md", "owner", "role"],
             Host::Account => &["md", "owner"],
         }
@@ -307,6 +307,9 @@ impl Lk {
                 a.field_locked = lk("field");
                 if vl("kv") != 0 || lk("kv") {
                     a.kv.push((KV_KEY, if vl("kv") == 0 { None } else { Some(vl("kv") as u32) }, lk("kv")));
+                }
+                if vl("kvs") != 0 || lk("kvs") {
+                    a.store.push((KV_KEY, if vl("kvs") == 0 { None } else { Some(vl("kvs") as u32) }, lk("kvs")));
                 }
                 if has_md {
                     a.metadata.data.insert(MD_KEY.to_string(), md_entry);
@@ -380,6 +383,13 @@ impl Lk {
             );
             let (l, v) = kvp(kv.map(|e| (e.is_locked(), e.into_value().map(|v| v as i64).unwrap_or(0))));
             put("kv", l, v);
+            // the standalone store: its node id is kept in field 0 of the component
+            let st: FieldSubstate<RelayState> = db.get_substate(node, MAIN_BASE_PARTITION, SubstateKey::Field(0)).expect("field 0");
+            let store = st.into_payload().store.expect("component without a store");
+            let kvs: Option<KeyValueEntrySubstate<u32>> =
+                db.get_substate(store.as_node_id(), MAIN_BASE_PARTITION, SubstateKey::Map(scrypto_encode(&KV_KEY).unwrap()));
+            let (l, v) = kvp(kvs.map(|e| (e.is_locked(), e.into_value().map(|v| v as i64).unwrap_or(0))));
+            put("kvs", l, v);
             let roy: Option<KeyValueEntrySubstate<ComponentRoyaltyMethodAmountEntryPayload>> = db.get_substate(
                 node,
                 ROYALTY_BASE_PARTITION.at_offset(ROYALTY_CONFIG_PARTITION_OFFSET).unwrap(),
@@ -501,24 +511,33 @@ fn replay(args: &Args) {
                 }
                 let v32 = v as u32;
                 let comp = || ComponentAddress::new_or_panic(t.into());
-                let b = match (item, op) {
-                    ("field", "update") => b.call_method(t, "field_write", (v32,)),
-                    ("field", "lock") => b.call_method(t, "field_lock", ()),
-                    ("field", "lockwrite") => b.call_method(t, "field_lock_write", (v32,)),
-                    ("kv", "update") => b.call_method(t, "kv_set", (KV_KEY, v32)),
-                    ("kv", "remove") => b.call_method(t, "kv_remove", (KV_KEY,)),
-                    ("kv", "lock") => b.call_method(t, "kv_lock", (KV_KEY,)),
-                    ("kv", "lockwrite") => b.call_method(t, "kv_lock_set", (KV_KEY, v32)),
-                    ("md", "update") => b.set_metadata(t, MD_KEY, MetadataValue::U32(v32)),
-                    ("md", "remove") => b.call_metadata_method(t, METADATA_REMOVE_IDENT, MetadataRemoveInput { key: MD_KEY.to_string() }),
-                    ("md", "lock") => b.lock_metadata(t, MD_KEY),
-                    ("roy", "update") => b.set_component_royalty(comp(), ROY_METHOD, Lk::royalty(v)),
-                    ("roy", "lock") => b.lock_component_royalty(comp(), ROY_METHOD),
-                    ("owner", "update") => b.set_owner_role(t, lkx.owner_rule(v)),
-                    ("owner", "lock") => b.lock_owner_role(t),
-                    ("role", "update") => b.set_role(t, ModuleId::Main, RoleKey::new(host.role_key()), lkx.owner_rule(v)),
-                    x => panic!("operation {:?}", x),
-                };
+                // one instruction per elementary operation; "locktx" = lock and update as two calls of one transaction
+                let elementary: Vec<&str> = if op == "locktx" { vec!["lock", "update"] } else { vec![op] };
+                let mut b = b;
+                for eop in elementary {
+                    b = match (item, eop) {
+                        ("field", "update") => b.call_method(t, "field_write", (v32,)),
+                        ("field", "lock") => b.call_method(t, "field_lock", ()),
+                        ("field", "lockwrite") => b.call_method(t, "field_lock_write", (v32,)),
+                        ("kv", "update") => b.call_method(t, "kv_set", (KV_KEY, v32)),
+                        ("kv", "remove") => b.call_method(t, "kv_remove", (KV_KEY,)),
+                        ("kv", "lock") => b.call_method(t, "kv_lock", (KV_KEY,)),
+                        ("kv", "lockwrite") => b.call_method(t, "kv_lock_set", (KV_KEY, v32)),
+                        ("kvs", "update") => b.call_method(t, "kvs_set", (KV_KEY, v32)),
+                        ("kvs", "remove") => b.call_method(t, "kvs_remove", (KV_KEY, 0u32)),
+                        ("kvs", "lock") => b.call_method(t, "kvs_lock", (KV_KEY, 0u32)),
+                        ("kvs", "lockwrite") => b.call_method(t, "kvs_lock_set", (KV_KEY, v32)),
+                        ("md", "update") => b.set_metadata(t, MD_KEY, MetadataValue::U32(v32)),
+                        ("md", "remove") => b.call_metadata_method(t, METADATA_REMOVE_IDENT, MetadataRemoveInput { key: MD_KEY.to_string() }),
+                        ("md", "lock") => b.lock_metadata(t, MD_KEY),
+                        ("roy", "update") => b.set_component_royalty(comp(), ROY_METHOD, Lk::royalty(v)),
+                        ("roy", "lock") => b.lock_component_royalty(comp(), ROY_METHOD),
+                        ("owner", "update") => b.set_owner_role(t, lkx.owner_rule(v)),
+                        ("owner", "lock") => b.lock_owner_role(t),
+                        ("role", "update") => b.set_role(t, ModuleId::Main, RoleKey::new(host.role_key()), lkx.owner_rule(v)),
+                        x => panic!("operation {:?}", x),
+                    };
+                }
                 let receipt = lkx.w.ledger.execute_manifest(b.build(), vec![]);
                 steps += 1;
                 if monitoring {
